@@ -33,9 +33,12 @@ package relationtuple
 //@   ensures[C13] error-class: result2 != nil ==> clienterr(result2)
 //@   ensures forall i in 0..len(result0) :: result0[i] != nil && wfsubject(result0[i].Subject)
 
+// lastexp: how many subject sets the last expansion traversal returned (ghost, C02 width)
+//@ ghostvar lastexp int
 //@ func Traverser.TraverseSubjectSetExpansion
 //@   trusted
-//@   modifies faulted
+//@   modifies faulted, lastexp
+//@   ensures lastexp == len(result0)
 //@   ensures faulted == (old(faulted) || (result1 != nil && !isnf(result1)))
 //@   ensures forall i in 0..len(result0) :: result0[i] != nil && result0[i].To != nil
 
